@@ -129,14 +129,23 @@ where
 
     match start.await {
         Err(e) => Err(io::Error::other(e)),
-        Ok(StartedHandshake::Done(s)) => Ok(s),
+        Ok(StartedHandshake::Done(s)) => finish(s).await,
         Ok(StartedHandshake::Mid(s)) => {
-            let mut stream = MidHandshake(Some(s)).await.map_err(io::Error::other)?;
-            stream.get_mut().get_mut().finish_handshake();
-            stream.flush().await?;
-            Ok(stream)
+            let stream = MidHandshake(Some(s)).await.map_err(io::Error::other)?;
+            finish(stream).await
         }
     }
+}
+
+/// The handshake is over, however many calls it took: let the stream flush
+/// again, and push out what the handshake left in the transport.
+async fn finish<S>(mut stream: TlsStream<S>) -> io::Result<TlsStream<S>>
+where
+    S: AsyncRead + AsyncWrite + Unpin,
+{
+    stream.get_mut().get_mut().finish_handshake();
+    stream.flush().await?;
+    Ok(stream)
 }
 
 impl<F, S> Future for StartedHandshakeFuture<F, S>
